@@ -283,6 +283,15 @@ func step(e Ev) (Obs, string, string) {
 			return o, "invalid-jwt-accepted:" + why, fmt.Sprintf("%s accepted a token with %s (%s)", e.Op, why, d)
 		}
 
+		// a cached verdict must not outlive the token: the cache-hit path
+		// answers from the entry alone until its deadline, so a deadline
+		// later than the token's own exp means an expired token is accepted
+		if exp := expOf(d); exp != 0 {
+			if dl, ok := oauth.VerifJWTCacheDeadline(strs[e.Tok]); ok && dl.Unix() > exp {
+				return o, "jwt-cache:verdict-outlives-token", fmt.Sprintf("after %s the JWT result cache answers for token %s until %s, its exp is %s: an expired token would be accepted from the cache", e.Op, e.Tok, dl.UTC().Format(time.RFC3339), time.Unix(exp, 0).UTC().Format(time.RFC3339))
+			}
+		}
+
 		if d.Jti != "" && revoked[d.Jti] {
 			path := "cache-miss"
 			if o.Cached {
@@ -294,6 +303,19 @@ func step(e Ev) (Obs, string, string) {
 	}
 
 	return o, "", ""
+}
+
+func expOf(d Desc) int64 {
+	switch d.Exp {
+	case "future":
+		return expFuture
+	case "soon":
+		return expSoon
+	case "past":
+		return expPast
+	}
+
+	return 0
 }
 
 // stateKey is the canonical implementation + model state.
@@ -436,6 +458,7 @@ func historyTokens(thorough bool) {
 	define("tA", Desc{Sig: "valid", Alg: "ES256", Kid: "match", Iss: "ok", Aud: "ok", Exp: "future", Jti: "A", Sub: "alice"})
 	define("tB", Desc{Sig: "valid", Alg: "RS256", Kid: "match", Iss: "ok", Aud: "ok", Exp: "future", Jti: "B", Sub: "bob"})
 	define("tA2", Desc{Sig: "valid", Alg: "RS256", Kid: "match", Iss: "ok", Aud: "ok", Exp: "future", Jti: "A", Sub: "alice2"})
+	define("tS", Desc{Sig: "valid", Alg: "ES256", Kid: "match", Iss: "ok", Aud: "ok", Exp: "soon", Jti: "S", Sub: "carol"})
 	define("tBad", Desc{Sig: "invalid", Alg: "ES256", Kid: "match", Iss: "ok", Aud: "ok", Exp: "future", Jti: "A", Sub: "alice"})
 
 	if thorough {
@@ -446,7 +469,7 @@ func historyTokens(thorough bool) {
 func alphabet(thorough bool) []Ev {
 	evs := []Ev{
 		{Op: "validate", Tok: "tA"}, {Op: "validate", Tok: "tB"}, {Op: "validate", Tok: "tA2"}, {Op: "validate", Tok: "tBad"},
-		{Op: "request", Tok: "tA"},
+		{Op: "request", Tok: "tA"}, {Op: "validate", Tok: "tS"},
 		{Op: "revoke", Jti: "A"}, {Op: "revoke-handler", Tok: "tA"}, {Op: "revoke", Jti: "B"},
 		{Op: "purge-jwt"}, {Op: "purge-blacklist"},
 		{Op: "advance", Dur: "61s"}, {Op: "advance", Dur: (cfgTTL + time.Second).String()},
